@@ -66,7 +66,7 @@ func (c *Ctx) primitiveSweep(maxP int) {
 			c.sphereFamily(r, cl)
 		}
 	}
-	for s := 1; s <= maxP*2; s++ {
+	for s := 0; s <= maxP*2; s++ {
 		c.sidesFamily(s)
 	}
 	c.gen("quad", "", func() modeling.Mesh { return primitives.Quad{Width: 2, Depth: 3}.ToMesh() })
@@ -211,9 +211,6 @@ func (c *Ctx) opSequences(n int) {
 		steps := 1 + c.Rng.Intn(6)
 		for k := 0; k < steps; k++ {
 			name := all[c.Rng.Intn(len(all))]
-			if name == "filter" && !filterApplicable(m) {
-				name = "topointcloud"
-			}
 			r := c.applyOp(name, m)
 			c.Emit("c02.op."+r.name, r.args, r.answer(shapeStr))
 			if r.status != "" {
@@ -241,7 +238,7 @@ func runC02(c *Ctx) {
 	if c.Tier == "thorough" {
 		for i := 0; i < 200; i++ {
 			c.sphereFamily(2+c.Rng.Intn(63), 3+c.Rng.Intn(62))
-			c.sidesFamily(1 + c.Rng.Intn(128))
+			c.sidesFamily(c.Rng.Intn(128))
 		}
 	}
 	c.opSequences(c.N)
